@@ -63,7 +63,8 @@ def plan(tier):
     p.injections = [("src/raft/cluster.rs", "c33.rs", "verif_kani_c33", MOD),
                     ("src/raft/storage.rs", "c31.rs", "verif_kani_c31", "raft::storage::verif_kani_c31")]
     gen = []
-    VIA = ["ClusterConfig::add_node", "ClusterManager::add_node", "ready-made nodes vec"]
+    VIA = ["ClusterConfig::add_node", "ClusterManager::add_node", "ready-made nodes vec",
+           "ClusterManager::add_node after pre-join activity marks"]
     def consistent(ids, vmask):
         seen = {}
         for i, x in enumerate(ids):
@@ -79,15 +80,15 @@ def plan(tier):
                   ((1, 2), 0b11, 0, 0), ((1, 2), 0b01, 0, 0), ((1, 2), 0b11, 0, 1), ((1, 2), 0b11, 1, 0),
                   ((1, 1, 2), 0b111, 0, 0), ((1, 2, 3), 0b111, 0, 0), ((1, 2, 3), 0b011, 2, 0), ((1, 2, 2), 0b111, 2, 0), ((1, 2, 1), 0b111, 2, 0),
                   # voter/learner changes by re-adding an id: promotion and demotion
-                  ((1, 2, 2), 0b101, 0, 0), ((1, 2, 2), 0b011, 0, 0), ((1, 1), 0b01, 1, 0)]
+                  ((1, 2, 2), 0b101, 0, 0), ((1, 2, 2), 0b011, 0, 0), ((1, 1), 0b01, 1, 0), ((1, 2), 0b11, 3, 0)]
     else:
         shapes = []
         for n in range(1, 4):
             for ids in rgs(n):
                 k = max(ids)
                 for vmask in range(1, 2 ** n):
-                    for via in (0, 1, 2):
-                        if via == 1 and n == 1:
+                    for via in (0, 1, 2, 3):
+                        if via in (1, 3) and n == 1:
                             continue
                         if via == 2 and not consistent(ids, vmask):
                             continue
